@@ -14,7 +14,7 @@ DEFAULT_MACROS = [("log", "info"), ("log", "warn"), ("log", "error")]
 
 _KV_SHAPES = ["ident", "field", "uint", "float", "bool", "str", "str_semi", "str_comma", "str_escq", "str_eq",
               "mod_q", "mod_debug", "mod_pct", "mod_display", "mod_err", "mod_sval", "mod_serde",
-              "short", "short_q", "short_pct"]
+              "short", "short_q", "short_pct", "char_eq", "char_escq", "char_nl"]
 FEATURES = {
     "path": ["bare", "qual"],
     "macro": [0, 1, 2, 3, 4],          # index into the configured macro set (modulo its length)
@@ -65,6 +65,10 @@ def kv_text(shape, key, rnd):
         "mod_err": "%s:err = %s" % (key, rnd.choice(IDENTS)),
         "mod_sval": "%s:sval = %s" % (key, rnd.choice(IDENTS)),
         "mod_serde": "%s:serde = %s" % (key, rnd.choice(IDENTS)),
+        # values ending in a character literal (no separator characters inside the quotes)
+        "char_eq": "%s = %s == '%s'" % (key, rnd.choice(["c", "ch"]), rnd.choice(["x", "=", "\"", "é", "/"])),
+        "char_escq": "%s = %s != '\\''" % (key, rnd.choice(["c", "ch"])),
+        "char_nl": "%s = %s == '\\n'" % (key, rnd.choice(["c", "ch"])),
         "short": "%s" % key,
         "short_q": "%s:?" % key,
         "short_pct": "%s:%%" % key,
@@ -129,7 +133,7 @@ def build_stmt(feat, marker, rnd, macros=None, eol="\n", ref_id=None, kv_ref=Non
     path = name if feat["path"] == "bare" else "%s::%s" % (mod, name)
     L = lambda: lay(feat["lay"], rnd, eol)
     parts = []   # (tag, text)
-    bang = feat.get("bang", "tight")
+    bang = feat.get("bang", "tight") if core.SPACED_BANG else "tight"
     parts.append(("path", path))
     parts.append(("lay", {"sp": " ", "cm": " /* level */ ", "nl": eol + "        ", "both": "  "}.get(bang, "")))
     parts.append(("bang", "!"))
